@@ -955,6 +955,9 @@ package consensus
 //@ spec tsEnv(ts V1TransactionSupplement) bool = (forall j in 0..len(ts.SiacoinInputs) :: types.u128(ts.SiacoinInputs[j].SiacoinOutput.Value) < EB) && (forall j in 0..len(ts.SiafundInputs) :: ts.SiafundInputs[j].SiafundOutput.Value <= 10000) && fcsWFts(ts)
 
 //@ func (*MidState).createFileContractElement
+//@   prop C01
+//@   asserts-only
+//@   at call:Currency.Add#1 assert @pool-grows-by-contract-tax $arg1 == ms.base.FileContractTax(fc)
 //@   trusted
 //@   modifies ms
 //@ func (*MidState).reviseFileContractElement
@@ -1019,7 +1022,17 @@ package consensus
 //@ func (*MidState).createSiafundElement
 //@   trusted
 //@   modifies ms
+//@ func (*MidState).recordV2FileContractElement
+//@   trusted
+//@   modifies ms
+//@ func (*MidState).recordFileContractElement
+//@   trusted
+//@   modifies ms
+// creating a contract adds exactly its tax to the siafund pool
 //@ func (*MidState).createV2FileContractElement
+//@   prop C01
+//@   asserts-only
+//@   at call:Currency.Add#1 assert @pool-grows-by-contract-tax $arg1 == ms.base.V2FileContractTax(fc)
 //@   trusted
 //@   modifies ms
 //@ func (*MidState).reviseV2FileContractElement
